@@ -84,6 +84,7 @@ type scen struct {
 	cont  bool
 	tsbd  int
 	snr   int
+	ast   int64 // availabilityStartTime (start_<ast>), 0 = default
 	seed  int64
 	probe bool // P chosen as a value that must or may be rejected
 }
@@ -286,6 +287,18 @@ func Main(args []string) error {
 			for pi, p := range probes {
 				scens = append(scens, scen{v: v, mode: mode, P: p, cont: pi%2 == 0, tsbd: 10, snr: -1, seed: rng.Int63(), probe: true})
 			}
+			// availabilityStartTime != 0 (start_<s>): not a multiple of most period durations / a whole hour / in 2023
+			asts := []int64{1000, 3600, 1_699_999_000}
+			if len(ps) > 0 && (*thorough || (vi+mi)%3 == 0) {
+				na := 1
+				if *thorough {
+					na = 3
+				}
+				for j := 0; j < na; j++ {
+					p := ps[(vi+mi+j)%len(ps)]
+					scens = append(scens, scen{v: v, mode: mode, P: p, cont: j%2 == 0, tsbd: 10, snr: -1, ast: asts[(vi+j)%3], seed: rng.Int63()})
+				}
+			}
 		}
 	}
 
@@ -299,7 +312,7 @@ func Main(args []string) error {
 		s := scens[idx]
 		a, rt := s.v.a, s.v.a.Video
 		r := rand.New(rand.NewSource(s.seed))
-		c1 := tl.Cfg{Mode: s.mode, SNR: s.snr, TSBD: s.tsbd}
+		c1 := tl.Cfg{Mode: s.mode, SNR: s.snr, TSBD: s.tsbd, AST: s.ast}
 		cP := c1
 		cP.Extra = []string{fmt.Sprintf("periods_%d", s.P)}
 		if s.cont {
@@ -343,6 +356,9 @@ func Main(args []string) error {
 			early := (1 + r.Int63n(40)) * lcm
 			for ei, e := range []int64{early, far} {
 				tag := []string{"", "-far"}[ei]
+				if ei == 1 && s.ast != 0 {
+					continue // instants are relative to availabilityStartTime: keep absolute times below 2^31 s
+				}
 				for d := int64(-1); d <= 1; d++ {
 					add(e+d, "boundary+wrap"+tag)        // now on period boundary and loop wrap
 					add(e+W+d, "boundary+wrap+edge"+tag) // window edge on period boundary and loop wrap
@@ -388,11 +404,11 @@ func Main(args []string) error {
 		base1 := c1.Prefix(a.Name) + "/"
 		baseP := cP.Prefix(a.Name) + "/"
 		for _, in := range ins {
-			now := in.t
-			q := fmt.Sprintf("?nowMS=%d", now)
+			now := in.t // relative to availabilityStartTime (the MPD timeline)
+			q := fmt.Sprintf("?nowMS=%d", s.ast*1000+now)
 			r1 := env.S.Get(url1 + q)
 			rP := env.S.Get(urlP + q)
-			e := tr.E{"ev": "mpd", "now": fmt.Sprint(now), "cls": in.cls, "st1": r1.Status, "stP": rP.Status, "acc": false, "url": urlP + q}
+			e := tr.E{"ev": "mpd", "now": fmt.Sprint(s.ast*1000 + now), "cls": in.cls, "st1": r1.Status, "stP": rP.Status, "acc": false, "url": urlP + q}
 			mu.Lock()
 			nMPD++
 			nReq += 2
@@ -438,6 +454,8 @@ func Main(args []string) error {
 			}
 			B := pi[0].startMS / 1000 // base (s)
 			e["B"] = clamp(B, &clamped)
+			var nowSign bool
+			e["nowB"] = clamp(now-B*1000, &nowSign) // only the sign is used (C06.cover)
 			e["pers"] = pers
 			ast1, errA := parseTimeMS(mP.AST)
 			pt, errT := parseTimeMS(mP.PublishTime)
@@ -497,13 +515,13 @@ func Main(args []string) error {
 				}
 				return rr.Status, dig
 			}
-			tup := func(x seg, t int64) []any {
+			tup := func(x seg, t int64, flag *bool) []any {
 				st, dig := fetch(x)
 				n := int64(0)
 				if x.n >= 0 {
 					n = x.n - NB
 				}
-				return []any{clamp(t, &clamped), clamp(x.d, &clamped), clamp(n, &clamped), st, dig}
+				return []any{clamp(t, flag), clamp(x.d, &clamped), clamp(n, &clamped), st, dig}
 			}
 			var ass []any
 			segsHere := 0
@@ -516,7 +534,13 @@ func Main(args []string) error {
 				for _, x := range v1.segs {
 					// presentation time of the single-period segment: t - pto + Period@start*TS, minus B*TS
 					tp := x.t - v1.pto + s1ms*v1.ts/1000 - B*v1.ts
-					ol = append(ol, tup(x, tp))
+					// a single-period segment before the first period's start is not required: its (negative) time may be clamped
+					fl := &clamped
+					var ignore bool
+					if tp < 0 {
+						fl = &ignore
+					}
+					ol = append(ol, tup(x, tp, fl))
 				}
 				segsHere += len(ol)
 				ae["one"] = ol
@@ -531,7 +555,7 @@ func Main(args []string) error {
 					}
 					sl := []any{}
 					for _, x := range v.segs {
-						sl = append(sl, tup(x, x.t-B*v.ts))
+						sl = append(sl, tup(x, x.t-B*v.ts, &clamped))
 					}
 					segsHere += len(sl)
 					pl = append(pl, map[string]any{"pto": clamp(v.pto-B*v.ts, &clamped), "ts": v.ts, "pc": v.pc, "segs": sl})
@@ -547,7 +571,7 @@ func Main(args []string) error {
 			nAcc++
 			nSeg += segsHere
 			nReq += segsHere
-			distinct[fmt.Sprintf("%s|%s|%s|%d|%v|%s", a.Name, s.v.mpd, s.mode, s.P, s.cont, in.cls)] = true
+			distinct[fmt.Sprintf("%s|%s|%s|%d|%v|%d|%s", a.Name, s.v.mpd, s.mode, s.P, s.cont, s.ast, in.cls)] = true
 			if len(samples) < 6 && len(mP.Periods) > 1 && r.Intn(20) == 0 {
 				samples = append(samples, map[string]any{"url": urlP + q, "periods": len(mP.Periods), "class": in.cls, "segments_listed_and_fetched": segsHere})
 			}
